@@ -6,6 +6,7 @@ import TrackVerif.LT.TreeLemmas
 import TrackVerif.LT.DecodeLemmas
 import TrackVerif.LT.Spec
 import TrackVerif.LT.SpecFacts
+import TrackVerif.LT.Reencode
 import TrackVerif.Generated.LT
 /-
   C01 — LapTimer files survive encode → decode → encode unchanged.
@@ -285,6 +286,50 @@ theorem decode_of_encode (db q : V) (chars : List Char) (body : List UInt8)
   simp only [entries, List.map_cons, List.map_nil] at this
   rw [foldField_single] at this
   exact this
+
+/-- **re-encoding theorem** (every schema with the facts, every value, every depth): if the leaf-wise
+    round trip of `v` is `q` and `v` is stable — every destination on the way is fresh, every leaf
+    prints the same text after its own round trip and `omitempty` treats it as before — then the
+    marshaller prints for `q` exactly the elements it printed for `v` -/
+theorem marshaller_reprints_decoded (s : Schema) (hs : SchemaFacts s) (f : Nat) (name : String) (om : Bool)
+    (ty : Gen.LtType) (cur v : V) (ts : List Xml.Tree) (q : V)
+    (hm : marshalTrees s f name om ty v = .ok ts) (hr : rtOf s f om ty cur v = some q)
+    (hst : stableOf s f om ty cur v = true) : marshalTrees s f name om ty q = .ok ts :=
+  reencode_marshal s hs f name om ty cur v ts q hm hr hst
+
+/-- **encode → decode → encode, for every stable database**: the file the encoder writes for `db`
+    decodes to `q`, and encoding `q` writes the same characters again.  `stableOf` is evaluated
+    by the driver on every generated database and is exactly what the recorded finding
+    (omitempty fixed-decimal field that rounds to zero) fails. -/
+theorem file_survives_roundtrip (db q : V) (chars : List Char) (body : List UInt8)
+    (henc : encodeDoc Spec.schema db = .ok chars)
+    (hrt : rtOf Spec.schema 64 false (.named "DB") (zeroOf Spec.schema 8 (.named "DB")) db = some q)
+    (hst : stableOf Spec.schema 64 false (.named "DB") (zeroOf Spec.schema 8 (.named "DB")) db = true)
+    (hbody : utf8Decode (body.length + 1) body = some (chars.drop declChars.length)) :
+    decodeDoc Spec.schema SpecSchema.cp1252 (declBytes ++ body) = .ok q ∧
+      encodeDoc Spec.schema q = .ok chars := by
+  refine ⟨decode_of_encode db q chars body henc hrt hbody, ?_⟩
+  unfold encodeDoc at henc ⊢
+  simp only [spec_root, marshalValue] at henc ⊢
+  obtain ⟨toks, ht, hc⟩ := map_ok_inv _ _ _ henc
+  obtain ⟨ts, hts, htoks⟩ := map_ok_inv _ _ _ ht
+  rw [reencode_marshal Spec.schema spec_facts 64 "LapTimerDB" false (.named "DB") _ db ts q hts hrt hst]
+  subst hc htoks
+  rfl
+
+/-- the stability premise cannot be dropped, and the recorded finding is exactly its failure: a
+    lap whose `omitempty` one-decimal ambient temperature is 0.04 has a leaf-wise round trip, is
+    not stable, and the decoded database is encoded to a different document (the field is gone) -/
+theorem omitempty_rounding_breaks_reencode :
+    (match rtOf Spec.schema 64 false (.named "DB") (zeroOf Spec.schema 8 (.named "DB")) findingDB with
+     | some q => !stableOf Spec.schema 64 false (.named "DB") (zeroOf Spec.schema 8 (.named "DB")) findingDB &&
+        decide (encodeDoc Spec.schema q ≠ encodeDoc Spec.schema findingDB)
+     | none => false) = true := by
+  decide +kernel
+
+/-- non-vacuity: the example database is stable -/
+example : stableOf Spec.schema 64 false (.named "DB") (zeroOf Spec.schema 8 (.named "DB")) exampleDB = true := by
+  decide +kernel
 
 /-- non-vacuity: a database with a lap (attribute `index`, dates, durations, fixed-decimal
     floats, omitted fields) meets the premises of `decode_of_encode` -/
